@@ -310,7 +310,7 @@ fn gen_children(rng: &mut Rng) -> Case {
         }
         if rng.chance(1, 4) {
             next_b += 1;
-            beh.stopped.push(Act::SendToChildren { j: rng.below(2), b: next_b });
+            beh.stopped.push(Act::SendToChildren { j: rng.below(3), b: next_b });
         }
         // some actors of the tree have a bounded mailbox: a broadcast is a forced submission, once per registration,
         // whether or not the child is busy and its mailbox full
@@ -375,7 +375,8 @@ fn gen_children(rng: &mut Rng) -> Case {
                 0 | 1 | 2 | 3 => {
                     next_m += 1;
                     next_b += 1;
-                    ops.push(Op::Send { h, m: next_m, script: vec![Act::SendToChildren { j: rng.below(2), b: next_b }] });
+                    // j = 2: the unit broadcast, which reaches the children attached with `add_child`
+                    ops.push(Op::Send { h, m: next_m, script: vec![Act::SendToChildren { j: rng.below(3), b: next_b }] });
                 }
                 4 => {
                     next_m += 1;
@@ -643,7 +644,15 @@ fn gen_actor(p: &Profile, rng: &mut Rng) -> Case {
     } else {
         Strat::Only
     };
-    let timeout = if !stream && rng.chance(p.timeout, 10) { Some(2 + rng.below(6) as u64) } else { None };
+    // a stream actor may be *configured* with a handler timeout too (the builder offers it before `with_stream`): the
+    // stream loop does not use it - nothing is ever abandoned there (C13) - and the spawn line says `timeout none`
+    let timeout = if stream {
+        if rng.chance(3, 10) { Some(2 + rng.below(2) as u64) } else { None }
+    } else if rng.chance(p.timeout, 10) {
+        Some(2 + rng.below(6) as u64)
+    } else {
+        None
+    };
     let fail = timeout.is_some() && rng.chance(1, 3);
     let owning = rng.chance(p.owning, 10);
     // restart requests are also sent to non-restartable plain spawns (they must ignore them)
@@ -997,7 +1006,7 @@ fn pick_kind(owned: &[(usize, u8)], kinds: &[u8], rng: &mut Rng) -> Option<(usiz
 fn gen_small(rng: &mut Rng) -> Case {
     let mut tags = vec![];
     let strat = *rng.pick(&[Strat::Only, Strat::Recreate, Strat::Non]);
-    let cap = *rng.pick(&[None, None, Some(0), Some(1), Some(2)]);
+    let mut cap = *rng.pick(&[None, None, Some(0), Some(1), Some(2)]);
     let owning = rng.chance(1, 3);
     let mut beh = Behaviour::default();
     let mut st0 = vec![];
@@ -1023,7 +1032,15 @@ fn gen_small(rng: &mut Rng) -> Case {
     let mut fail = false;
     let mut slow_first = false;
     let mut panic_first = false;
+    // one handler that takes longer than a second while sends wait behind it on a small bounded mailbox: a wait of
+    // any length is still a wait (C12), and nothing else in the families lets virtual time run that far
+    let mut very_slow = false;
     let fault_tag = match rng.below(9) {
+        6 if next_t == 0 => {
+            very_slow = true;
+            cap = Some(rng.below(3));
+            "none"
+        }
         0 => {
             beh.started = vec![vec![Act::Fail]];
             "start_err"
@@ -1083,6 +1100,9 @@ fn gen_small(rng: &mut Rng) -> Case {
             if slow_first {
                 s.push(Act::Work(5));
             }
+            if very_slow {
+                s.push(Act::Work(1300));
+            }
             if panic_first {
                 s.push(Act::Panic);
             }
@@ -1092,6 +1112,12 @@ fn gen_small(rng: &mut Rng) -> Case {
     let mut a_ops: Vec<Op> = vec![];
     let mut a_has = true; // client A still holds handle 1
     let n = 1 + rng.below(4);
+    if very_slow {
+        for _ in 0..(4 + rng.below(3)) {
+            next_m += 1;
+            a_ops.push(Op::Send { h: 1, m: next_m, script: script_for(&mut first_msg, vec![]) });
+        }
+    }
     for _ in 0..n {
         if !a_has {
             break;
@@ -1246,5 +1272,6 @@ fn gen_small(rng: &mut Rng) -> Case {
     }
     let prompt = rng.chance(1, 2);
     tags.push(format!("prompt={}", prompt as u8));
-    Case { program: Program { setup, clients }, sched: sched(rng), prompt, horizon: 100, cancel: None, tags }
+    tags.push(format!("veryslow={}", very_slow as u8));
+    Case { program: Program { setup, clients }, sched: sched(rng), prompt, horizon: if very_slow { 3000 } else { 100 }, cancel: None, tags }
 }
